@@ -244,29 +244,71 @@ Qed.
 Definition ffrom (idx : Z) := fun (i : nat) (p : pos) (_ : pos) => (p, Z.ltb (Z.of_nat i) idx).
 Definition fto (target : pos) := fun (i : nat) (p : pos) (_ : nat) => (i, pos_lt p target).
 
+(* the callback is not called for the \n of a \r\n pair *)
+Definition skipped (st : wstate) (it : item) : bool := w_cr st && N.eqb (fst it) LF.
+
+Lemma walk_cons {A} it rest i st (f : nat -> pos -> A -> A * bool) acc :
+  walk (it :: rest) i st f acc =
+  if skipped st it then walk rest (i + snd it) (step (fst it) st) f acc
+  else if snd (f i (w_pos st) acc) then walk rest (i + snd it) (step (fst it) st) f (fst (f i (w_pos st) acc))
+       else fst (f i (w_pos st) acc).
+Proof. reflexivity. Qed.
+
+Lemma skipped_pos st it : skipped st it = true -> w_pos (step (fst it) st) = w_pos st.
+Proof.
+  unfold skipped. intros H. apply andb_true_iff in H as [Hcr Hlf]. apply N.eqb_eq in Hlf.
+  unfold step. rewrite Hlf, Hcr. reflexivity.
+Qed.
+
+Lemma skipped_cr st it : skipped st it = true -> w_cr (step (fst it) st) = false.
+Proof.
+  unfold skipped. intros H. apply andb_true_iff in H as [_ Hlf]. apply N.eqb_eq in Hlf.
+  rewrite step_cr, Hlf. reflexivity.
+Qed.
+
 Lemma walk_from_prefix : forall its i st idx acc,
   exists pre post, its = pre ++ post /\ walk its i st (ffrom idx) acc = w_pos (run (runes pre) st).
 Proof.
+  unfold ffrom.
   induction its as [|it rest IH]; intros i st idx acc.
   - exists [], []. split; reflexivity.
-  - cbn [walk ffrom fst snd]. destruct (Z.ltb (Z.of_nat i) idx).
-    + destruct (IH (i + snd it)%nat (step (fst it) st) idx (w_pos st)) as (pre & post & E & W).
+  - rewrite walk_cons. destruct (skipped st it).
+    + destruct (IH (i + snd it)%nat (step (fst it) st) idx acc) as (pre & post & E & W).
       exists (it :: pre), post. split; [cbn; congruence|]. exact W.
-    + exists [], (it :: rest). split; reflexivity.
+    + cbn [fst snd]. destruct (Z.ltb (Z.of_nat i) idx).
+      * destruct (IH (i + snd it)%nat (step (fst it) st) idx (w_pos st)) as (pre & post & E & W).
+        exists (it :: pre), post. split; [cbn; congruence|]. exact W.
+      * exists [], (it :: rest). split; reflexivity.
 Qed.
 
-Lemma walk_from_exact : forall pre post i st acc, widths_pos pre ->
+(* past the target, with lastCR clear, the walk stops at once *)
+Lemma walk_from_stop rest i st idx acc : idx < Z.of_nat i -> w_cr st = false ->
+  walk rest i st (ffrom idx) acc = w_pos st.
+Proof.
+  unfold ffrom. intros Hi Hcr. destruct rest as [|it rest]; [reflexivity|].
+  rewrite walk_cons. unfold skipped. rewrite Hcr. cbn [andb fst snd].
+  replace (Z.of_nat i <? idx) with false by lia. reflexivity.
+Qed.
+
+Lemma walk_from_exact : forall pre post i st acc, widths_pos (pre ++ post) ->
   walk (pre ++ post) i st (ffrom (Z.of_nat (i + wsum pre))) acc = w_pos (run (runes pre) st).
 Proof.
   induction pre as [|it pre IH]; intros post i st acc Hw.
   - cbn [app wsum runes map run fold_left]. replace (i + 0)%nat with i by lia.
-    destruct post as [|it rest]; cbn [walk ffrom fst snd]; [reflexivity|].
-    rewrite Z.ltb_irrefl. reflexivity.
-  - inversion Hw as [|? ? Hw1 Hw2]; subst.
-    cbn [app walk ffrom fst snd wsum].
-    replace (Z.of_nat i <? Z.of_nat (i + (snd it + wsum pre))) with true by lia.
+    destruct post as [|it rest]; [reflexivity|].
+    rewrite walk_cons. destruct (skipped st it) eqn:Sk.
+    + cbn [app] in Hw. inversion Hw as [|? ? Hw1 Hw2]; subst.
+      rewrite walk_from_stop; [apply skipped_pos, Sk|lia|apply skipped_cr, Sk].
+    + unfold ffrom. cbn [fst snd]. rewrite Z.ltb_irrefl. reflexivity.
+  - cbn [app] in Hw. inversion Hw as [|? ? Hw1 Hw2]; subst.
+    cbn [app wsum]. rewrite walk_cons.
     replace (i + (snd it + wsum pre))%nat with ((i + snd it) + wsum pre)%nat by lia.
-    rewrite (IH post (i + snd it)%nat (step (fst it) st) (w_pos st) Hw2). reflexivity.
+    destruct (skipped st it).
+    + rewrite (IH post (i + snd it)%nat (step (fst it) st) acc Hw2). reflexivity.
+    + assert (Hf : forall acc0, ffrom (Z.of_nat (i + snd it + wsum pre)) i (w_pos st) acc0 = (w_pos st, true)).
+      { intros acc0. unfold ffrom. f_equal. lia. }
+      rewrite !Hf. cbn [fst snd].
+      rewrite (IH post (i + snd it)%nat (step (fst it) st) (w_pos st) Hw2). reflexivity.
 Qed.
 
 (* every result of lspPositionFromIdx is the position of some rune prefix *)
@@ -303,7 +345,7 @@ Lemma from_idx_exact s pre post : items_of s = pre ++ post ->
   lspPositionFromIdx s (Z.of_nat (wsum pre)) = pos_of_prefix (runes pre).
 Proof.
   intros E. unfold lspPositionFromIdx, from_idx_items. rewrite E.
-  pose proof (items_of_widths s) as Hw. rewrite E in Hw. apply widths_pos_app in Hw as [Hw _].
+  pose proof (items_of_widths s) as Hw. rewrite E in Hw.
   pose proof (walk_from_exact pre post O st0 (mkPos 0 0) Hw) as H. cbn [Nat.add] in H.
   unfold ffrom in H. rewrite H. apply run_st0.
 Qed.
@@ -331,10 +373,13 @@ Proof.
   unfold fto.
   induction its as [|it rest IH]; intros i st target acc.
   - exists [], []. split; [reflexivity|]. cbn. lia.
-  - cbn [walk fst snd]. destruct (pos_lt (w_pos st) target).
-    + destruct (IH (i + snd it)%nat (step (fst it) st) target i) as (pre & post & E & W).
+  - rewrite walk_cons. destruct (skipped st it).
+    + destruct (IH (i + snd it)%nat (step (fst it) st) target acc) as (pre & post & E & W).
       exists (it :: pre), post. split; [cbn; congruence|]. rewrite W. cbn [wsum]. lia.
-    + exists [], (it :: rest). split; [reflexivity|]. cbn. lia.
+    + cbn [fst snd]. destruct (pos_lt (w_pos st) target).
+      * destruct (IH (i + snd it)%nat (step (fst it) st) target i) as (pre & post & E & W).
+        exists (it :: pre), post. split; [cbn; congruence|]. rewrite W. cbn [wsum]. lia.
+      * exists [], (it :: rest). split; [reflexivity|]. cbn. lia.
 Qed.
 
 (* for every text and every position whatsoever the result is a rune boundary *)
@@ -348,62 +393,66 @@ Qed.
 Lemma to_idx_in_range s p : (lspPositionToIdx s p <= length s)%nat.
 Proof. apply boundary_le, to_idx_total. Qed.
 
+Definition not_skipped_at (st : wstate) (b : list item) : Prop :=
+  match b with [] => True | y :: _ => skipped st y = false end.
+
 Lemma walk_to_exact : forall a b i st target acc,
-  (forall a1 x a2, a = a1 ++ x :: a2 -> plt (w_pos (run (runes a1) st)) target) ->
+  (forall a1 x a2, a = a1 ++ x :: a2 -> skipped (run (runes a1) st) x = false ->
+     plt (w_pos (run (runes a1) st)) target) ->
   ~ plt (w_pos (run (runes a) st)) target ->
+  not_skipped_at (run (runes a) st) b ->
   walk (a ++ b) i st (fto target) acc = (i + wsum a)%nat.
 Proof.
-  induction a as [|it a IH]; intros b i st target acc H1 H2.
-  - cbn [app wsum]. cbn [runes map run fold_left] in H2.
+  unfold fto.
+  induction a as [|it a IH]; intros b i st target acc H1 H2 H3.
+  - cbn [app wsum]. cbn [runes map run fold_left] in H2, H3.
     assert (E : pos_lt (w_pos st) target = false).
     { destruct (pos_lt (w_pos st) target) eqn:E; [|reflexivity]. apply pos_lt_iff in E. contradiction. }
-    destruct b as [|it rest]; cbn [walk fto fst snd]; [lia|]. rewrite E. cbn. lia.
-  - cbn [app walk fto fst snd wsum].
-    assert (E : pos_lt (w_pos st) target = true).
-    { apply pos_lt_iff. apply (H1 [] it a). reflexivity. }
-    rewrite E.
-    rewrite (IH b (i + snd it)%nat (step (fst it) st) target i).
-    + lia.
-    + intros a1 x a2 Ea. subst a. apply (H1 (it :: a1) x a2). reflexivity.
-    + exact H2.
+    destruct b as [|it rest]; [cbn; lia|].
+    rewrite walk_cons. cbn [not_skipped_at] in H3. rewrite H3. cbn [fst snd]. rewrite E. cbn. lia.
+  - cbn [app wsum]. rewrite walk_cons.
+    assert (IH' : forall acc', walk (a ++ b) (i + snd it) (step (fst it) st)
+                   (fun (i0 : nat) (p : pos) (_ : nat) => (i0, pos_lt p target)) acc'
+                   = (i + snd it + wsum a)%nat).
+    { intros acc'. apply IH.
+      - intros a1 x a2 Ea Sk. subst a. apply (H1 (it :: a1) x a2); [reflexivity|exact Sk].
+      - exact H2.
+      - exact H3. }
+    destruct (skipped st it) eqn:Sk.
+    + rewrite IH'. lia.
+    + cbn [fst snd].
+      assert (E : pos_lt (w_pos st) target = true).
+      { apply pos_lt_iff. apply (H1 [] it a); [reflexivity|exact Sk]. }
+      rewrite E, IH'. lia.
 Qed.
 
-Lemma ends_crlf_snoc2 l : ends_crlf (l ++ [CR; LF]) = true.
-Proof. unfold ends_crlf. rewrite rev_app_distr. reflexivity. Qed.
-
-Lemma run_cr_true a st : w_cr (run (runes a) st) = true ->
-  (a = [] /\ w_cr st = true) \/ exists a0 w, a = a0 ++ [(CR, w)].
+Lemma run_cr_st0 rs : w_cr (run rs st0) = ends_cr rs.
 Proof.
-  destruct a as [|x a'] using rev_ind; intros H.
-  - left. split; [reflexivity|exact H].
-  - right. rewrite runes_app in H. cbn [runes map] in H. rewrite run_cr_snoc in H.
-    apply N.eqb_eq in H. destruct x as [r w]. cbn in H. subst r. exists a', w. reflexivity.
+  destruct rs as [|r rs'] using rev_ind; [reflexivity|].
+  rewrite run_cr_snoc. unfold ends_cr. rewrite rev_app_distr. reflexivity.
 Qed.
 
-(* the position of a boundary maps back to it, unless the boundary is right
-   after a \r\n pair *)
-Lemma to_idx_items_exact pre post : ends_crlf (runes pre) = false ->
+(* the position of every boundary that is not strictly inside a \r\n pair maps
+   back to that boundary *)
+Lemma to_idx_items_exact pre post : inside_crlf (runes pre) (runes post) = false ->
   to_idx_items (pre ++ post) (pos_of_prefix (runes pre)) = wsum pre.
 Proof.
   intros Hn. unfold to_idx_items. rewrite <- run_st0.
-  apply (walk_to_exact pre post O st0 (w_pos (run (runes pre) st0)) O); [|unfold plt; lia].
-  intros a1 x a2 E. subst pre.
-  rewrite runes_app, run_app. cbn [runes map]. apply run_lt.
-  destruct a2 as [|y a2]; [right|left; cbn; congruence].
-  intros [Hcr Hx].
-  apply run_cr_true in Hcr as [[_ Hcr]|(a0 & w & E0)]; [cbn in Hcr; discriminate|].
-  subst a1. rewrite <- app_assoc, runes_app in Hn. cbn [app runes map fst] in Hn.
-  destruct x as [r wx]; cbn [fst] in *. subst r.
-  rewrite ends_crlf_snoc2 in Hn. discriminate.
+  apply (walk_to_exact pre post O st0 (w_pos (run (runes pre) st0)) O).
+  - intros a1 x a2 E Sk. subst pre.
+    rewrite runes_app, run_app. cbn [runes map]. apply run_lt. right.
+    intros [Hcr Hx]. unfold skipped in Sk. rewrite Hcr, Hx in Sk. discriminate.
+  - unfold plt; lia.
+  - destruct post as [|y post']; [exact I|]. cbn [not_skipped_at]. unfold skipped.
+    rewrite run_cr_st0. exact Hn.
 Qed.
 
-Lemma to_idx_exact s pre post : items_of s = pre ++ post -> ends_crlf (runes pre) = false ->
+Lemma to_idx_exact s pre post : items_of s = pre ++ post ->
+  inside_crlf (runes pre) (runes post) = false ->
   lspPositionToIdx s (pos_of_prefix (runes pre)) = wsum pre.
 Proof. intros E H. unfold lspPositionToIdx. rewrite E. apply to_idx_items_exact, H. Qed.
 
-Lemma ends_crlf_snoc_cr l : ends_crlf (l ++ [CR]) = false.
-Proof. unfold ends_crlf. rewrite rev_app_distr. cbn. destruct (rev l); reflexivity. Qed.
-
+(* \r\n is one line break: the \n does not move the position *)
 Lemma pos_crlf_same a0 w1 w2 :
   pos_of_prefix (runes (a0 ++ [(CR, w1); (LF, w2)])) = pos_of_prefix (runes (a0 ++ [(CR, w1)])).
 Proof.
@@ -417,63 +466,43 @@ Proof.
   unfold step. rewrite Hcr. reflexivity.
 Qed.
 
-(* the defect, characterised: the position of the boundary right after a \r\n pair
-   maps to the offset of the \n inside the pair *)
-Lemma to_idx_after_crlf s a0 w1 w2 post :
-  items_of s = (a0 ++ [(CR, w1); (LF, w2)]) ++ post ->
-  lspPositionToIdx s (pos_of_prefix (runes (a0 ++ [(CR, w1); (LF, w2)]))) = wsum (a0 ++ [(CR, w1)]).
-Proof.
-  intros E.
-  rewrite pos_crlf_same. apply (to_idx_exact s (a0 ++ [(CR, w1)]) ((LF, w2) :: post)).
-  - rewrite E, <- !app_assoc. reflexivity.
-  - rewrite runes_app. apply ends_crlf_snoc_cr.
-Qed.
-
-(* round trip offset -> position -> offset *)
-Lemma from_to_roundtrip_partial s pre post : items_of s = pre ++ post ->
-  ends_crlf (runes pre) = false ->
+(* round trip offset -> position -> offset, for every rune boundary that is not
+   strictly inside a \r\n pair *)
+Lemma from_to_roundtrip s pre post : items_of s = pre ++ post ->
+  inside_crlf (runes pre) (runes post) = false ->
   lspPositionToIdx s (lspPositionFromIdx s (Z.of_nat (wsum pre))) = wsum pre.
 Proof. intros E H. rewrite (from_idx_exact s pre post E). apply (to_idx_exact s pre post E H). Qed.
 
-(* the full statement, for every boundary not inside a \r\n pair, is false *)
-Definition crlf_text : bytes := [13; 10]%N.
-Lemma from_to_roundtrip_refuted :
-  exists s pre post, items_of s = pre ++ post /\
-    inside_crlf (runes pre) (runes post) = false /\
-    lspPositionToIdx s (lspPositionFromIdx s (Z.of_nat (wsum pre))) <> wsum pre.
+Lemma ends_cr_items_inv pre : ends_cr (runes pre) = true -> exists a0 w, pre = a0 ++ [(CR, w)].
 Proof.
-  exists crlf_text, [(CR, 1%nat); (LF, 1%nat)], []. repeat split; vm_compute; congruence.
+  destruct pre as [|[r w] pre'] using rev_ind; [discriminate|].
+  rewrite runes_app. unfold ends_cr. rewrite rev_app_distr. cbn. intros H.
+  apply N.eqb_eq in H. subst r. exists pre', w. reflexivity.
 Qed.
 
-Lemma ends_crlf_inv rs : ends_crlf rs = true -> exists l, rs = l ++ [CR; LF].
-Proof.
-  unfold ends_crlf. destruct (rev rs) as [|a [|b t]] eqn:Er; try discriminate. intros H.
-  apply andb_true_iff in H as [Ha Hb]. apply N.eqb_eq in Ha, Hb. subst a b.
-  exists (rev t). rewrite <- (rev_involutive rs), Er. cbn. rewrite <- app_assoc. reflexivity.
-Qed.
+Lemma ends_cr_snoc_lf l : ends_cr (l ++ [LF]) = false.
+Proof. unfold ends_cr. rewrite rev_app_distr. reflexivity. Qed.
 
-Lemma ends_crlf_items_inv pre : ends_crlf (runes pre) = true ->
-  exists a0 w1 w2, pre = a0 ++ [(CR, w1); (LF, w2)].
-Proof.
-  intros H. apply ends_crlf_inv in H as (l & El). unfold runes in El.
-  apply map_eq_app in El as (a0 & t & Ep & _ & Et).
-  destruct t as [|[r1 w1] [|[r2 w2] [|? ?]]]; cbn in Et; try discriminate.
-  inversion Et; subst. exists a0, w1, w2. reflexivity.
-Qed.
-
-(* round trip position -> offset -> position holds without exception: whenever a
-   position is exactly the position of some boundary *)
+(* round trip position -> offset -> position, for every exact position (also the
+   position of a boundary inside a pair, which is the position of the boundary
+   after the pair) *)
 Lemma to_from_roundtrip s pre post : items_of s = pre ++ post ->
   lspPositionFromIdx s (Z.of_nat (lspPositionToIdx s (pos_of_prefix (runes pre)))) = pos_of_prefix (runes pre).
 Proof.
-  intros E. destruct (ends_crlf (runes pre)) eqn:Hc.
-  - (* pre = a0 ++ [CR; LF] *)
-    apply ends_crlf_items_inv in Hc as (a0 & w1 & w2 & Ep).
-    subst pre. rewrite (to_idx_after_crlf s a0 w1 w2 post E).
-    rewrite (from_idx_exact s (a0 ++ [(CR, w1)]) ((LF, w2) :: post)).
-    + symmetry. apply pos_crlf_same.
-    + rewrite E, <- !app_assoc. reflexivity.
-  - rewrite (to_idx_exact s pre post E Hc). apply (from_idx_exact s pre post E).
+  intros E. destruct (inside_crlf (runes pre) (runes post)) eqn:Hi.
+  - unfold inside_crlf in Hi. apply andb_true_iff in Hi as [Hc Hl].
+    apply ends_cr_items_inv in Hc as (a0 & w1 & ->).
+    destruct post as [|[r w2] post']; [discriminate|]. cbn in Hl. apply N.eqb_eq in Hl. subst r.
+    rewrite <- (pos_crlf_same a0 w1 w2).
+    assert (E2 : items_of s = (a0 ++ [(CR, w1); (LF, w2)]) ++ post').
+    { rewrite E, <- !app_assoc. reflexivity. }
+    assert (Hn : inside_crlf (runes (a0 ++ [(CR, w1); (LF, w2)])) (runes post') = false).
+    { unfold inside_crlf.
+      replace (runes (a0 ++ [(CR, w1); (LF, w2)])) with ((runes a0 ++ [CR]) ++ [LF])
+        by (rewrite runes_app, <- app_assoc; reflexivity).
+      rewrite ends_cr_snoc_lf. reflexivity. }
+    rewrite (to_idx_exact s _ post' E2 Hn). apply (from_idx_exact s _ post' E2).
+  - rewrite (to_idx_exact s pre post E Hi). apply (from_idx_exact s pre post E).
 Qed.
 
 (* ================================================================== *)
@@ -537,31 +566,18 @@ Proof.
 Qed.
 
 (* the model of lspPositionToIdx satisfies the oracle for every text and every
-   position outside the recorded finding class *)
-Lemma to_idx_meets_oracle_partial s p : line_start_after_crlf s p = false ->
-  check_to_idx s p (Z.of_nat (lspPositionToIdx s p)) = true.
+   position *)
+Lemma to_idx_meets_oracle s p : check_to_idx s p (Z.of_nat (lspPositionToIdx s p)) = true.
 Proof.
-  intros Hc. unfold check_to_idx. apply andb_true_iff. split.
+  unfold check_to_idx. apply andb_true_iff. split.
   - destruct (to_idx_total s p) as (pre & post & E & W). apply existsb_exists.
     exists (pre, post). split; [apply splits_spec, E|]. cbn [fst]. lia.
   - apply forallb_forall. intros [pre post] Hin. apply splits_spec in Hin. cbn [fst snd].
-    destruct (inside_crlf (runes pre) (runes post)); [reflexivity|]. cbn [negb andb].
+    destruct (inside_crlf (runes pre) (runes post)) eqn:Hi; [reflexivity|]. cbn [negb andb].
     destruct (pos_eqb (pos_of_prefix (runes pre)) p) eqn:Ep; [|reflexivity].
     apply pos_eqb_eq in Ep. subst p.
-    assert (Hn : ends_crlf (runes pre) = false).
-    { unfold line_start_after_crlf in Hc.
-      destruct (ends_crlf (runes pre)) eqn:En; [|reflexivity]. exfalso.
-      assert (Ht : existsb (fun ab => ends_crlf (runes (fst ab)) && pos_eqb (pos_of_prefix (runes (fst ab))) (pos_of_prefix (runes pre))) (splits (items_of s)) = true).
-      { apply existsb_exists. exists (pre, post). split; [apply splits_spec, Hin|]. cbn [fst]. rewrite En.
-        cbn [andb]. apply pos_eqb_eq. reflexivity. }
-      congruence. }
-    rewrite (to_idx_exact s pre post Hin Hn). lia.
+    rewrite (to_idx_exact s pre post Hin Hi). lia.
 Qed.
-
-(* and inside that class it does not *)
-Lemma to_idx_meets_oracle_refuted :
-  exists s p, check_to_idx s p (Z.of_nat (lspPositionToIdx s p)) = false.
-Proof. exists crlf_text, (mkPos 1 0). vm_compute. reflexivity. Qed.
 
 (* ================================================================== *)
 (* 7. The server as a state machine *)
@@ -801,33 +817,17 @@ Proof.
 Qed.
 
 (* ================================================================== *)
-(* 8. Updates handled back to back: publications may arrive in any order *)
+(* 8. Updates handled back to back: publications arrive in update order *)
 
-Lemma perms_self {A} (l : list A) : In l (perms l).
+(* publications are sent synchronously by the handlers, which run one at a time:
+   the only arrival order is the update order, and then the last publication a
+   client receives for a document is about its latest text *)
+Lemma burst_last_publication u ups order : ups <> [] ->
+  In order (burst_orders u ups) -> check_burst u ups order = true.
 Proof.
-  induction l as [|x r IH]; [left; reflexivity|]. cbn [perms]. apply in_flat_map.
-  exists r. split; [exact IH|]. destruct r; left; reflexivity.
-Qed.
-
-(* when every update is awaited (arrival order = update order) the last
-   publication is about the latest text *)
-Lemma burst_in_order_ok u ups : ups <> [] ->
-  In (burst_pubs_in_order u ups) (burst_orders u ups) /\
-  check_burst u ups (burst_pubs_in_order u ups) = true.
-Proof.
-  intros Hne. split; [apply perms_self|].
+  intros Hne [<-|[]].
   unfold check_burst, burst_pubs_in_order. rewrite <- map_rev.
   destruct (rev ups) as [|[t pe] r] eqn:Er.
   - exfalso. apply Hne. rewrite <- (rev_involutive ups), Er. reflexivity.
   - cbn [map fst snd]. rewrite bytes_eqb_refl, check_diag_model. reflexivity.
-Qed.
-
-(* the full statement — for every arrival order the code allows, the last
-   publication is about the latest text — is false *)
-Lemma burst_last_publication_refuted :
-  exists u ups order, In order (burst_orders u ups) /\ check_burst u ups order = false.
-Proof.
-  exists [117%N], [([36%N; 33%N], [(1, 2)]); ([], [])],
-         [([117%N], []); ([117%N], [(mkPos 0 1, mkPos 0 2)])].
-  split; vm_compute; [right; left; reflexivity|reflexivity].
 Qed.
